@@ -16,6 +16,11 @@ Lemma fse_quic_eq : forall c s, fse_quic c s = (s, SRemoteTerminate c).
 Proof. reflexivity. Qed.
 
 (* ------------------------------------------------------------------ the grammar of a message body as a relation *)
+(* what may follow a trailer section k: the end of the stream *)
+Definition tail_ok (q : list ev) (e : ending) (k : hkind) : Prop :=
+  (q = [EFin] /\ e = EndFinT k) \/ (exists c, q = [EReset c] /\ e = EndReset c) \/
+  (exists c, q = [EPartial; EReset c] /\ e = EndReset c).
+
 Inductive body_ok : N -> list ev -> bytes -> ending -> Prop :=
 | bo_fin : body_ok 0 [EFin] [] EndFin
 | bo_reset : forall r c, body_ok r [EReset c] [] (EndReset c)
@@ -23,7 +28,8 @@ Inductive body_ok : N -> list ev -> bytes -> ending -> Prop :=
 | bo_data : forall t part q d e,
     len part <= t -> body_ok (t - len part) q d e -> body_ok 0 (EData t part :: q) (part ++ d) e
 | bo_more : forall r bs q d e,
-    bs <> [] -> len bs <= r -> body_ok (r - len bs) q d e -> body_ok r (EMore bs :: q) (bs ++ d) e.
+    bs <> [] -> len bs <= r -> body_ok (r - len bs) q d e -> body_ok r (EMore bs :: q) (bs ++ d) e
+| bo_trl : forall k q e, tail_ok q e k -> body_ok 0 (EHeaders k :: q) [] e.
 
 Lemma len_le0_nil : forall p : bytes, len p <= 0 -> p = [].
 Proof. intros p H. destruct p; [reflexivity | unfold len in H; cbn [length] in H; lia]. Qed.
@@ -41,7 +47,23 @@ Proof.
   induction p as [|x p IH]; intros r acc d' e Hs Hne.
   - cbn in Hs. inversion Hs; subst. contradiction Hne; reflexivity.
   - destruct x as [k|t part|bs| | |c].
-    + cbn in Hs. inversion Hs; subst. contradiction Hne; reflexivity.
+    + (* trailers *)
+      cbn [scan_body] in Hs.
+      destruct (r =? 0) eqn:Hr; [|inversion Hs; subst; contradiction Hne; reflexivity].
+      apply N.eqb_eq in Hr. subst r.
+      destruct p as [|y p']; [inversion Hs; subst; contradiction Hne; reflexivity|].
+      destruct y as [k'|t' part'|bs'| | |c]; try (inversion Hs; subst; contradiction Hne; reflexivity).
+      * destruct p' as [|z p'']; [inversion Hs; subst; contradiction Hne; reflexivity|].
+        destruct z; try (inversion Hs; subst; contradiction Hne; reflexivity).
+        destruct p''; [|inversion Hs; subst; contradiction Hne; reflexivity].
+        inversion Hs; subst. exists []. split; [rewrite app_nil_r; reflexivity|].
+        apply bo_trl. right; right. eexists; split; reflexivity.
+      * destruct p'; [|inversion Hs; subst; contradiction Hne; reflexivity].
+        inversion Hs; subst. exists []. split; [rewrite app_nil_r; reflexivity|].
+        apply bo_trl. left. split; reflexivity.
+      * destruct p'; [|inversion Hs; subst; contradiction Hne; reflexivity].
+        inversion Hs; subst. exists []. split; [rewrite app_nil_r; reflexivity|].
+        apply bo_trl. right; left. eexists; split; reflexivity.
     + cbn [scan_body] in Hs.
       destruct ((r =? 0) && (len part <=? t)) eqn:Hc.
       * apply andb_true_iff in Hc. destruct Hc as [Hr Hl].
@@ -90,19 +112,24 @@ Proof. intros x a H. inversion H; assumption. Qed.
 (* a RESET anywhere in a well-formed body is how the body ends *)
 Lemma body_ok_reset : forall r p d e c, body_ok r p d e -> In (EReset c) p -> e = EndReset c.
 Proof.
-  intros r p d e c H. induction H as [|r0 c0|c0|t part q d e Hl Hb IH|r0 bs q d e Hn Hl Hb IH]; intros Hin.
+  intros r p d e c H. induction H as [|r0 c0|c0|t part q d e Hl Hb IH|r0 bs q d e Hn Hl Hb IH|k q e Ht]; intros Hin.
   - destruct Hin as [Hx|[]]. discriminate Hx.
   - destruct Hin as [Hx|[]]. inversion Hx; reflexivity.
   - destruct Hin as [Hx|[Hx|[]]]; [discriminate Hx | inversion Hx; reflexivity].
   - destruct Hin as [Hx|Hin]; [discriminate Hx | exact (IH Hin)].
   - destruct Hin as [Hx|Hin]; [discriminate Hx | exact (IH Hin)].
+  - destruct Hin as [Hx|Hin]; [discriminate Hx|].
+    destruct Ht as [[Hq He]|[[c1 [Hq He]]|[c1 [Hq He]]]]; subst q e.
+    + destruct Hin as [Hx|[]]. discriminate Hx.
+    + destruct Hin as [Hx|[]]. inversion Hx; reflexivity.
+    + destruct Hin as [Hx|[Hx|[]]]; [discriminate Hx | inversion Hx; reflexivity].
 Qed.
 
 (* terminal events occur only in the last position *)
 Lemma body_ok_terminal_last : forall r p d e, body_ok r p d e ->
   forall a x b, p = a ++ x :: b -> b <> [] -> is_chunk x.
 Proof.
-  intros r p d e H. induction H as [|r0 c0|c0|t part q d e Hl Hb IH|r0 bs q d e Hn Hl Hb IH]; intros a x b Heq Hb'.
+  intros r p d e H. induction H as [|r0 c0|c0|t part q d e Hl Hb IH|r0 bs q d e Hn Hl Hb IH|k q e Ht]; intros a x b Heq Hb'.
   - destruct a as [|y a']; cbn in Heq; inversion Heq; subst.
     + contradiction Hb'; reflexivity.
     + destruct a'; discriminate.
@@ -120,20 +147,35 @@ Proof.
   - destruct a as [|y a']; cbn in Heq; inversion Heq; subst.
     + exact I.
     + eapply IH; [reflexivity | exact Hb'].
+  - destruct a as [|y a']; cbn in Heq; inversion Heq; subst; [exact I|].
+    destruct Ht as [[Hq He]|[[c1 [Hq He]]|[c1 [Hq He]]]]; subst e.
+    + destruct a' as [|z a'']; cbn in Hq; inversion Hq; subst; [contradiction Hb'; reflexivity | destruct a''; discriminate].
+    + destruct a' as [|z a'']; cbn in Hq; inversion Hq; subst; [contradiction Hb'; reflexivity | destruct a''; discriminate].
+    + destruct a' as [|z a'']; cbn in Hq; inversion Hq; subst; [exact I|].
+      destruct a'' as [|z2 a3]; cbn in *; inversion H1; subst; [contradiction Hb'; reflexivity | destruct a3; discriminate].
 Qed.
 
 Lemma body_ok_nonempty : forall r p d e, body_ok r p d e -> p <> [].
 Proof. intros r p d e H. destruct H; discriminate. Qed.
 
+Lemma tail_ok_not_chunks : forall q e k, tail_ok q e k -> ~ chunks q.
+Proof.
+  intros q e k [[Hq _]|[[c [Hq _]]|[c [Hq _]]]] Hc; subst q.
+  - inversion Hc as [|? ? Hx ?]; subst. exact Hx.
+  - inversion Hc as [|? ? Hx ?]; subst. exact Hx.
+  - inversion Hc as [|? ? _ Hc']; subst. inversion Hc' as [|? ? Hx ?]; subst. exact Hx.
+Qed.
+
 (* a well-formed body ends with a terminal event: it cannot consist of chunks only *)
 Lemma body_ok_not_chunks : forall r p d e, body_ok r p d e -> ~ chunks p.
 Proof.
-  intros r p d e H. induction H as [|r0 c0|c0|t part q d e Hl Hb IH|r0 bs q d e Hn Hl Hb IH]; intros Hc.
+  intros r p d e H. induction H as [|r0 c0|c0|t part q d e Hl Hb IH|r0 bs q d e Hn Hl Hb IH|k q e Ht]; intros Hc.
   - inversion Hc as [|? ? Hx ?]; subst. exact Hx.
   - inversion Hc as [|? ? Hx ?]; subst. exact Hx.
   - inversion Hc as [|? ? _ Hc']; subst. inversion Hc' as [|? ? Hx ?]; subst. exact Hx.
   - apply IH. eapply chunks_tail; exact Hc.
   - apply IH. eapply chunks_tail; exact Hc.
+  - apply chunks_tail in Hc. eapply tail_ok_not_chunks; eassumption.
 Qed.
 
 (* ------------------------------------------------------------------ stream state invariant *)
@@ -147,7 +189,7 @@ Definition payload_chunk (p : bytes) : list ev := match p with [] => [] | _ => [
 Lemma body_ok_after_header : forall t part q d e,
   body_ok 0 (EData t part :: q) d e -> body_ok t (payload_chunk part ++ q) d e.
 Proof.
-  intros t part q d e H. inversion H as [| | |t0 p0 q0 d0 e0 Hl Hb|]; subst.
+  intros t part q d e H. inversion H as [| | |t0 p0 q0 d0 e0 Hl Hb| |]; subst.
   destruct part as [|b part'].
   - cbn [payload_chunk app]. cbn [len length] in Hb. change (N.of_nat 0) with 0 in Hb.
     rewrite N.sub_0_r in Hb. exact Hb.
@@ -163,7 +205,11 @@ Definition pn_post (f : fstream) (T : list ev) (d : bytes) (e : ending) (res : p
   | (PnData t, f') =>
       fs_ok f' /\ remaining f' = t /\ body_ok t (pend f' ++ T) d e /\ (msr f' <= msr f)%nat /\
       (t = 0 -> (msr f' < msr f)%nat)
-  | (PnEnd, _) => e = EndFin /\ d = []
+  | (PnEnd, f') =>
+      e = EndFin /\ d = [] /\ fs_ok f' /\ eos f' = true /\ buf f' = [] /\ remaining f' = 0 /\ (msr f' <= msr f)%nat
+  | (PnHeaders k, f') =>
+      (* the trailer section *)
+      d = [] /\ fs_ok f' /\ remaining f' = 0 /\ tail_ok (pend f' ++ T) e k /\ (msr f' < msr f)%nat
   | _ => False
   end.
 
@@ -174,11 +220,14 @@ Lemma length_payload_chunk : forall p, (length (payload_chunk p) <= 1)%nat.
 Proof. intros p. destruct p; cbn; lia. Qed.
 
 (* what a well-formed body can start with *)
-Lemma body_head0 : forall p d e, body_ok 0 p d e ->
+Definition no_trailers (p : list ev) : Prop := forall k rest, p <> EHeaders k :: rest.
+
+Lemma body_head0 : forall p d e, body_ok 0 p d e -> no_trailers p ->
   p = [EFin] \/ (exists c, p = [EReset c]) \/ (exists c, p = [EPartial; EReset c]) \/
   (exists t part q, p = EData t part :: q).
 Proof.
-  intros p d e H. inversion H as [|r0 c|c|t part q d0 e0 Hl Hb|r0 bs q d0 e0 Hn Hl Hb]; subst.
+  intros p d e H Hnt. inversion H as [|r0 c|c|t part q d0 e0 Hl Hb|r0 bs q d0 e0 Hn Hl Hb|k q e0 Ht]; subst;
+    [| | | | |exfalso; eapply Hnt; reflexivity].
   - left; reflexivity.
   - right; left; exists c; reflexivity.
   - right; right; left; exists c; reflexivity.
@@ -190,12 +239,13 @@ Lemma body_head_pos : forall r p d e, r <> 0 -> body_ok r p d e ->
   (exists c, p = [EReset c]) \/
   (exists bs q d', p = EMore bs :: q /\ bs <> [] /\ len bs <= r /\ d = bs ++ d' /\ body_ok (r - len bs) q d' e).
 Proof.
-  intros r p d e Hr H. inversion H as [|r0 c|c|t part q d0 e0 Hl Hb|r0 bs q d0 e0 Hn Hl Hb]; subst.
+  intros r p d e Hr H. inversion H as [|r0 c|c|t part q d0 e0 Hl Hb|r0 bs q d0 e0 Hn Hl Hb|k q e0 Ht]; subst.
   - contradiction Hr; reflexivity.
   - left; exists c; reflexivity.
   - contradiction Hr; reflexivity.
   - contradiction Hr; reflexivity.
   - right. exists bs, q, d0. repeat split; assumption.
+  - contradiction Hr; reflexivity.
 Qed.
 
 Lemma pn_loop_chunk : forall x q b, is_chunk x ->
@@ -211,6 +261,8 @@ Lemma pn_post_transfer : forall f1 f2 T d e res,
 Proof.
   intros f1 f2 T d e [r f'] Hp Hm H. destruct r; cbn [pn_post] in *; try exact H.
   - destruct H as (H1 & H2 & H3 & H4 & H5). repeat split; try assumption; try apply H1. congruence.
+  - destruct H as (H1 & H2 & H3 & H4 & H5 & H6 & H7). repeat split; try assumption; try apply H3. lia.
+  - destruct H as (H1 & H2 & H3 & H4 & H5). repeat split; try assumption; try apply H2. lia.
   - destruct H as (H1 & H2 & H3 & H4 & H5). repeat split; try assumption; try apply H1; lia.
 Qed.
 
@@ -232,21 +284,21 @@ Proof.
   - unfold msr at 1. cbn [buf rx]. rewrite Hm, app_length. cbn [length].
     pose proof (length_payload_chunk part). lia.
   - intros Ht. subst t.
-    cbn [app] in Hb. inversion Hb as [| | |t0 p0 q0 d0 e1 Hl Hb0|]; subst.
+    cbn [app] in Hb. inversion Hb as [| | |t0 p0 q0 d0 e1 Hl Hb0| |]; subst.
     assert (Hpt : part = []) by (apply len_le0_nil; exact Hl).
     subst part. unfold msr at 1. cbn [buf rx payload_chunk app]. rewrite Hm. cbn [length]. lia.
 Qed.
 
 Lemma pn_loop_body : forall q b T d e,
-  chunks b -> body_ok 0 (b ++ q ++ T) d e ->
+  chunks b -> body_ok 0 (b ++ q ++ T) d e -> no_trailers (b ++ q ++ T) ->
   pn_post {| buf := b; remaining := 0; eos := false; rx := q |} T d e (pn_loop q b).
 Proof.
-  induction q as [|x q IH]; intros b T d e Hc Hb.
+  induction q as [|x q IH]; intros b T d e Hc Hb Hnt.
   - (* transport queue empty *)
     cbn [pn_loop].
     destruct b as [|h b'].
     + cbn. repeat split; try reflexivity; try constructor. intros H; discriminate H.
-    + destruct (body_head0 _ _ _ Hb) as [H|[[c H]|[[c H]|[t [part [q0 H]]]]]]; cbn [app] in H.
+    + destruct (body_head0 _ _ _ Hb Hnt) as [H|[[c H]|[[c H]|[t [part [q0 H]]]]]]; cbn [app] in H.
       * inversion H; subst. inversion Hc as [|? ? Hx ?]; subst. destruct Hx.
       * inversion H; subst. inversion Hc as [|? ? Hx ?]; subst. destruct Hx.
       * inversion H as [[Hh H2]]; subst h. destruct b' as [|y b''].
@@ -263,9 +315,9 @@ Proof.
     + (* FIN next *)
       subst x. cbn [pn_loop].
       destruct b as [|h b'].
-      * cbn [app] in Hb. destruct (body_head0 _ _ _ Hb) as [H|[[c H]|[[c H]|[t [part [q0 H]]]]]]; try discriminate H.
-        inversion H; subst. inversion Hb; subst. cbn. split; reflexivity.
-      * destruct (body_head0 _ _ _ Hb) as [H|[[c H]|[[c H]|[t [part [q0 H]]]]]]; cbn [app] in H.
+      * cbn [app] in Hb. destruct (body_head0 _ _ _ Hb Hnt) as [H|[[c H]|[[c H]|[t [part [q0 H]]]]]]; try discriminate H.
+        inversion H; subst. inversion Hb; subst. cbn. split; [reflexivity|]. split; [reflexivity|]. split; [split; cbn; [constructor | intros _; eexists; reflexivity]|]. split; [reflexivity|]. split; [reflexivity|]. split; [reflexivity|]. unfold msr; cbn; rewrite ?Hbuf, ?Hq; cbn; lia.
+      * destruct (body_head0 _ _ _ Hb Hnt) as [H|[[c H]|[[c H]|[t [part [q0 H]]]]]]; cbn [app] in H.
         -- inversion H; subst. destruct b'; discriminate.
         -- inversion H; subst. destruct b'; discriminate.
         -- inversion H as [[Hh H2]]; subst. destruct b' as [|y b'']; cbn in H2; [discriminate H2|].
@@ -283,7 +335,7 @@ Proof.
       rewrite pn_loop_chunk by exact Hx.
       destruct b as [|h b'].
       * cbn [app] in Hb. cbn [app].
-        destruct (body_head0 _ _ _ Hb) as [H|[[c H]|[[c H]|[t [part [q0 H]]]]]].
+        destruct (body_head0 _ _ _ Hb Hnt) as [H|[[c H]|[[c H]|[t [part [q0 H]]]]]].
         -- inversion H; subst. destruct Hx.
         -- inversion H; subst. destruct Hx.
         -- (* a partial frame arrives, buffer empty: keep reading *)
@@ -293,13 +345,14 @@ Proof.
            ++ unfold msr; cbn; lia.
            ++ constructor; [exact I | constructor].
            ++ cbn [app]. exact Hb.
+           ++ cbn [app]. exact Hnt.
         -- (* a DATA frame arrives, buffer empty *)
            inversion H; subst. rewrite decode_data.
            eapply pn_decode_data; try reflexivity.
            ++ constructor; [exact I | constructor].
            ++ intros Hf; discriminate Hf.
            ++ exact Hb.
-      * destruct (body_head0 _ _ _ Hb) as [H|[[c H]|[[c H]|[t [part [q0 H]]]]]]; cbn [app] in H.
+      * destruct (body_head0 _ _ _ Hb Hnt) as [H|[[c H]|[[c H]|[t [part [q0 H]]]]]]; cbn [app] in H.
         -- inversion H; subst. inversion Hc as [|? ? Hy ?]; subst. destruct Hy.
         -- inversion H; subst. inversion Hc as [|? ? Hy ?]; subst. destruct Hy.
         -- inversion H as [[Hh H2]]; subst h. destruct b' as [|y b'']; cbn in H2.
@@ -319,19 +372,20 @@ Qed.
 Lemma fstream_eta : forall f, f = {| buf := buf f; remaining := remaining f; eos := eos f; rx := rx f |}.
 Proof. intros f. destruct f; reflexivity. Qed.
 
-Lemma pn_body : forall f T d e,
-  fs_ok f -> remaining f = 0 -> body_ok 0 (pend f ++ T) d e -> pn_post f T d e (poll_next f).
+Lemma pn_body_data : forall f T d e,
+  fs_ok f -> remaining f = 0 -> body_ok 0 (pend f ++ T) d e -> no_trailers (pend f ++ T) ->
+  pn_post f T d e (poll_next f).
 Proof.
-  intros f T d e [Hc He] Hr Hb. unfold poll_next. rewrite Hr. cbn [N.eqb negb].
+  intros f T d e [Hc He] Hr Hb Hnt. unfold poll_next. rewrite Hr. cbn [N.eqb negb].
   change (0 =? 0) with true. cbn [negb].
-  unfold pend in Hb. rewrite <- app_assoc in Hb.
+  unfold pend in Hb, Hnt. rewrite <- app_assoc in Hb, Hnt.
   destruct (eos f) eqn:Heos.
   - (* the end of the stream was seen before *)
     destruct (He eq_refl) as [q Hq]. rewrite Hq in *.
     destruct (buf f) as [|h b'] eqn:Hbuf.
-    + cbn [app] in Hb. destruct (body_head0 _ _ _ Hb) as [H|[[c H]|[[c H]|[t [part [q0 H]]]]]]; try discriminate H.
-      inversion H; subst. inversion Hb; subst. cbn. split; reflexivity.
-    + destruct (body_head0 _ _ _ Hb) as [H|[[c H]|[[c H]|[t [part [q0 H]]]]]]; cbn [app] in H.
+    + cbn [app] in Hb. destruct (body_head0 _ _ _ Hb Hnt) as [H|[[c H]|[[c H]|[t [part [q0 H]]]]]]; try discriminate H.
+      inversion H; subst. inversion Hb; subst. cbn. split; [reflexivity|]. split; [reflexivity|]. split; [split; cbn; [constructor | intros _; eexists; reflexivity]|]. split; [reflexivity|]. split; [reflexivity|]. split; [reflexivity|]. unfold msr; cbn; rewrite ?Hbuf, ?Hq; cbn; lia.
+    + destruct (body_head0 _ _ _ Hb Hnt) as [H|[[c H]|[[c H]|[t [part [q0 H]]]]]]; cbn [app] in H.
       * inversion H; subst. destruct b'; discriminate.
       * inversion H; subst. destruct b'; discriminate.
       * inversion H as [[Hh H2]]; subst. destruct b' as [|y b'']; cbn in H2; [discriminate H2|].
@@ -344,9 +398,75 @@ Proof.
         apply HH; try assumption.
         -- unfold pend. rewrite Hbuf, Hq. reflexivity.
         -- unfold msr. rewrite Hbuf, Hq. reflexivity.
-  - eapply pn_post_transfer; [| |apply pn_loop_body; [exact Hc | exact Hb]].
+  - eapply pn_post_transfer; [| |apply pn_loop_body; [exact Hc | exact Hb | exact Hnt]].
     + reflexivity.
     + reflexivity.
+Qed.
+
+Lemma decode_headers : forall k b, decode (EHeaders k :: b) = (DHeaders k, b).
+Proof. reflexivity. Qed.
+
+(* the next thing to decode is a trailer section *)
+Lemma pn_headers : forall f T d e k rest,
+  fs_ok f -> remaining f = 0 -> body_ok 0 (pend f ++ T) d e -> pend f ++ T = EHeaders k :: rest ->
+  pn_post f T d e (poll_next f).
+Proof.
+  intros f T d e k rest [Hc He] Hr Hb Heq.
+  assert (Hd : d = [] /\ tail_ok rest e k).
+  { rewrite Heq in Hb. inversion Hb as [| | | | |k0 q0 e0 Ht]; subst. split; [reflexivity | exact Ht]. }
+  destruct Hd as [Hd Ht]. subst d.
+  unfold poll_next. rewrite Hr. change (negb (0 =? 0)) with false. cbn iota.
+  unfold pend in Heq. rewrite <- app_assoc in Heq.
+  assert (Hdone : forall b' e0 q nc, buf f = EHeaders k :: b' -> rx f = q -> (e0 = true -> exists q', q = EFin :: q') ->
+            pn_post f T [] e (decode_or (EHeaders k :: b') e0 q nc)).
+  { intros b' e0 q nc Hbuf Hrx He0. unfold decode_or. rewrite decode_headers. cbn [pn_post].
+    rewrite Hbuf, Hrx in Heq. cbn [app] in Heq. injection Heq as Heq.
+    split; [reflexivity|]. split; [|split; [reflexivity|split]].
+    - split; cbn [buf eos rx]; [rewrite Hbuf in Hc; eapply chunks_tail; exact Hc | exact He0].
+    - unfold pend. cbn [buf rx]. rewrite <- app_assoc, Heq. exact Ht.
+    - unfold msr. cbn [buf rx]. rewrite Hbuf, Hrx. cbn [length]. lia. }
+  destruct (eos f) eqn:Heos.
+  - destruct (He eq_refl) as [q0 Hq]. destruct (buf f) as [|h b'] eqn:Hbuf.
+    + rewrite Hq in Heq. cbn in Heq. discriminate Heq.
+    + cbn [app] in Heq. injection Heq as Hh _. subst h. apply Hdone; [reflexivity | reflexivity|].
+      intros _. eexists; exact Hq.
+  - destruct (buf f) as [|h b'] eqn:Hbuf.
+    + cbn [app] in Heq. destruct (rx f) as [|x q] eqn:Hrx.
+      * cbn. split; [split; cbn; [constructor | intros Hf; discriminate Hf]|].
+        split; [reflexivity|]. split; [reflexivity|]. split; [unfold pend; rewrite Hbuf, Hrx; reflexivity | reflexivity].
+      * cbn [app] in Heq. injection Heq as Hx Hrest. subst x.
+        rewrite pn_loop_chunk by exact I. cbn [app]. rewrite decode_headers.
+        unfold decode_or. rewrite decode_headers. cbn [pn_post].
+        split; [reflexivity|]. split; [|split; [reflexivity|split]].
+        -- split; cbn; [constructor | intros Hf; discriminate Hf].
+        -- unfold pend. cbn. rewrite Hrest. exact Ht.
+        -- unfold msr. rewrite Hbuf, Hrx. cbn. lia.
+    + cbn [app] in Heq. injection Heq as Hh Hrest. subst h.
+      destruct (rx f) as [|x q] eqn:Hrx.
+      * cbn [pn_loop]. apply Hdone; [reflexivity | reflexivity | intros Hf; discriminate Hf].
+      * assert (Hx : x = EFin \/ (exists c, x = EReset c) \/ is_chunk x).
+        { destruct x; try (right; right; exact I); [left; reflexivity | right; left; eexists; reflexivity]. }
+        destruct Hx as [Hx|[[c Hx]|Hx]].
+        -- subst x. cbn [pn_loop]. apply Hdone; [reflexivity | reflexivity|]. intros _. eexists; reflexivity.
+        -- subst x. cbn [pn_loop pn_post]. eapply body_ok_reset; [exact Hb|].
+           unfold pend. rewrite Hbuf, Hrx. apply in_or_app; left. apply in_or_app; right. left; reflexivity.
+        -- rewrite pn_loop_chunk by exact Hx. cbn [app]. rewrite decode_headers.
+           unfold decode_or. rewrite decode_headers. cbn [pn_post].
+           split; [reflexivity|]. split; [|split; [reflexivity|split]].
+           ++ split; cbn [buf eos rx]; [|intros Hf; discriminate Hf].
+              apply chunks_app; [eapply chunks_tail; exact Hc | constructor; [exact Hx | constructor]].
+           ++ unfold pend. cbn [buf rx]. rewrite <- !app_assoc. rewrite <- Hrest in Ht. exact Ht.
+           ++ unfold msr. cbn [buf rx]. rewrite Hbuf, Hrx, app_length. cbn [length]. lia.
+Qed.
+
+Lemma pn_body : forall f T d e,
+  fs_ok f -> remaining f = 0 -> body_ok 0 (pend f ++ T) d e -> pn_post f T d e (poll_next f).
+Proof.
+  intros f T d e Hok Hr Hb.
+  destruct (pend f ++ T) as [|x rest] eqn:Heq.
+  - exfalso. eapply body_ok_nonempty; [exact Hb | reflexivity].
+  - destruct x as [k|t part|bs| | |c]; try (rewrite <- Heq in Hb; apply pn_body_data; try assumption; rewrite Heq; intros k0 r0 Hf; discriminate Hf).
+    rewrite <- Heq in Hb. eapply pn_headers; eassumption.
 Qed.
 
 (* ------------------------------------------------------------------ poll_data inside a DATA payload *)
@@ -498,7 +618,11 @@ Definition rd_post (sh : shared) (f : fstream) (T : list ev) (d : bytes) (e : en
   | (RdSome bs, sh', f') =>
       sh' = sh /\ fs_ok f' /\ (msr f' < msr f)%nat /\
       exists d', d = bs ++ d' /\ body_ok (remaining f') (pend f' ++ T) d' e
-  | (RdNone, sh', _) => sh' = sh /\ e = EndFin /\ d = []
+  | (RdNone, sh', f') =>
+      sh' = sh /\ e = EndFin /\ d = [] /\ fs_ok f' /\ eos f' = true /\ buf f' = [] /\ remaining f' = 0 /\
+      (msr f' <= msr f)%nat
+  | (RdTrailers k, sh', f') =>
+      sh' = sh /\ d = [] /\ fs_ok f' /\ remaining f' = 0 /\ tail_ok (pend f' ++ T) e k /\ (msr f' < msr f)%nat
   | (RdErr er, sh', _) => sh' = sh /\ exists c, e = EndReset c /\ er = SRemoteTerminate c
   | _ => False
   end.
@@ -512,6 +636,8 @@ Proof.
   intros sh f1 f2 T d e [[r sh'] f'] Hm H. destruct r; cbn [rd_post] in *; try exact H.
   - destruct H as (H1 & H2 & H3 & H4 & H5). repeat split; try assumption; try apply H2. lia.
   - destruct H as (H1 & H2 & H3 & H4). repeat split; try assumption; try apply H2. lia.
+  - destruct H as (H1 & H2 & H3 & H4 & H5 & H6 & H7 & H8). repeat split; try assumption; try apply H4. lia.
+  - destruct H as (H1 & H2 & H3 & H4 & H5 & H6). repeat split; try assumption; try apply H3. lia.
 Qed.
 
 Lemma recv_loop_body : forall fuel sh f T d e,
@@ -534,7 +660,8 @@ Proof.
       * destruct Hpn as (H1 & H2 & H3 & H4 & H5). repeat split; try assumption; try apply H1.
         -- rewrite H2, H4. exact Hb.
         -- rewrite !msr_pend, H4. lia.
-      * destruct Hpn as [H1 H2]. repeat split; assumption.
+      * destruct Hpn as (H1 & H2 & H3 & H4 & H5 & H6 & H7). repeat split; try assumption; apply H3.
+      * destruct Hpn as (H1 & H2 & H3 & H4 & H5). repeat split; try assumption; apply H2.
       * destruct Hpn as (H1 & H2 & H3 & H4 & H5).
         eapply rd_post_mono; [exact H4|]. apply IH; [exact H1 | rewrite H2; exact H3 |].
         intros Hr0. rewrite H2 in Hr0. specialize (H5 Hr0). lia.
@@ -623,3 +750,59 @@ Proof.
         try (destruct (fse_quic c s); discriminate H); try (destruct (fse_end s); discriminate H).
       injection H as H1 H2. subst. eapply poll_data_pending; exact Hp.
 Qed.
+
+(* ------------------------------------------------------------------ after a trailer section: only the end of the stream *)
+Definition pn_tail_post (f : fstream) (e : ending) (k : hkind) (res : pn * fstream) : Prop :=
+  match res with
+  | (PnPending, f') => fs_ok f' /\ remaining f' = 0 /\ pend f' = pend f /\ rx f' = []
+  | (PnEnd, _) => e = EndFinT k
+  | (PnErrQuic c, _) => e = EndReset c
+  | _ => False
+  end.
+
+Lemma pn_tail : forall f T e k,
+  fs_ok f -> remaining f = 0 -> tail_ok (pend f ++ T) e k -> pn_tail_post f e k (poll_next f).
+Proof.
+  intros [b r es q] T e k [Hc He] Hr Ht. cbn [buf remaining eos rx] in *. subst r.
+  unfold pend in Ht. cbn [buf rx] in Ht.
+  unfold poll_next. cbn [remaining eos buf rx]. change (negb (0 =? 0)) with false. cbn iota.
+  destruct Ht as [[Hp He']|[[c [Hp He']]|[c [Hp He']]]]; subst e.
+  - (* FIN *)
+    destruct b as [|x b]; [|exfalso; cbn in Hp; injection Hp as Hx _; subst x; inversion Hc as [|? ? Hy ?]; exact Hy].
+    cbn [app] in Hp. destruct q as [|y q].
+    + destruct es; [destruct (He eq_refl) as [? Hf]; discriminate Hf|].
+      cbn. repeat split; try constructor. intros Hf; discriminate Hf.
+    + cbn [app] in Hp. injection Hp as Hy _. subst y. destruct es; cbn; reflexivity.
+  - (* RESET *)
+    destruct b as [|x b]; [|exfalso; cbn in Hp; injection Hp as Hx _; subst x; inversion Hc as [|? ? Hy ?]; exact Hy].
+    cbn [app] in Hp. destruct q as [|y q].
+    + destruct es; [destruct (He eq_refl) as [? Hf]; discriminate Hf|].
+      cbn. repeat split; try constructor. intros Hf; discriminate Hf.
+    + cbn [app] in Hp. injection Hp as Hy _. subst y.
+      destruct es; [destruct (He eq_refl) as [? Hf]; discriminate Hf|]. cbn. reflexivity.
+  - (* a truncated frame, then RESET *)
+    destruct es.
+    { exfalso. destruct (He eq_refl) as [q' Hq]. subst q.
+      destruct b as [|x1 [|x2 b]]; cbn in Hp; try discriminate Hp.
+      injection Hp as _ _ Hp. destruct b; discriminate Hp. }
+    destruct b as [|x1 b].
+    + cbn [app] in Hp. destruct q as [|y1 q].
+      * cbn. repeat split; try constructor. intros Hf; discriminate Hf.
+      * cbn [app] in Hp. injection Hp as Hy Hp. subst y1. destruct q as [|y2 q].
+        -- cbn. repeat split; try reflexivity.
+           ++ constructor; [exact I | constructor].
+           ++ intros Hf; discriminate Hf.
+        -- cbn [app] in Hp. injection Hp as Hy _. subst y2. cbn. reflexivity.
+    + cbn [app] in Hp. injection Hp as Hx Hp. subst x1.
+      destruct b as [|x2 b].
+      * cbn [app] in Hp. destruct q as [|y1 q].
+        -- cbn. repeat split; try reflexivity.
+           ++ constructor; [exact I | constructor].
+           ++ intros Hf; discriminate Hf.
+        -- cbn [app] in Hp. injection Hp as Hy _. subst y1. cbn. reflexivity.
+      * exfalso. cbn [app] in Hp. injection Hp as Hx _. subst x2.
+        inversion Hc as [|? ? _ Hc']; subst. inversion Hc' as [|? ? Hy ?]; exact Hy.
+Qed.
+
+Lemma poll_next_at_end : forall f, eos f = true -> buf f = [] -> remaining f = 0 -> poll_next f = (PnEnd, f).
+Proof. intros [b r es q] He Hb Hr. cbn in *. subst. reflexivity. Qed.
